@@ -143,18 +143,24 @@ def main():
         ck.violation(f["sig"], f["what"], f["case"])
 
     # watchdog suspects: confirm with a long single run + goroutine dumps
-    long_t = 90 if thorough else 25
+    long_t = 60 if thorough else 15
     unconfirmed = []
-    for su in s["suspects"] or []:
+
+    def confirm(su):
         try:
             q = subprocess.run([binp, "single", su["file"], str(long_t)], stdout=subprocess.PIPE, stderr=subprocess.PIPE,
                                timeout=long_t + 60)
         except subprocess.TimeoutExpired:
             raise vlib.InfraError("single run of a suspect did not even dump: %s" % su)
         lines = [l for l in q.stdout.decode(errors="replace").splitlines() if l.startswith("{")]
-        res = json.loads(lines[-1]) if lines else {}
+        return su, q.returncode, (json.loads(lines[-1]) if lines else {})
+
+    suspects = (s["suspects"] or [])[:6]
+    with concurrent.futures.ThreadPoolExecutor(max_workers=6) as ex:
+        confirmed = list(ex.map(confirm, suspects))
+    for su, rc, res in confirmed:
         data = open(su["file"], "rb").read()
-        if q.returncode == 3 and res.get("result") == "timeout":
+        if rc == 3 and res.get("result") == "timeout":
             fn = looping_function(res.get("dumps", []))
             if fn is None:
                 raise vlib.InfraError("suspect still running after %ss but no parser frame in the dumps: %s" % (long_t, su))
